@@ -144,7 +144,90 @@ func main() {
 			}
 		}
 	}
-	vh.WriteFile(*out, "cases.v", "Definition cases : list verdict_case := "+vh.ListNL(items)+".\n")
+	// ---- the funnel's primitives against the real combineErrors / ignCancel / errors.Is,
+	// and collectErrors against the real one
+	causes := []string{"cancel", "audit", "real"}
+	causeCoq := map[string]string{"cancel": "KCancel", "audit": "KAudit", "real": "KReal"}
+	genErr := func() []string {
+		n := []int{0, 0, 1, 1, 2, 3}[rng.Intn(6)]
+		var e []string
+		for i := 0; i < n; i++ {
+			e = append(e, causes[rng.Intn(3)])
+		}
+		return e
+	}
+	coqErr := func(e []string) string {
+		var xs []string
+		for _, c := range e {
+			xs = append(xs, causeCoq[c])
+		}
+		return "[" + strings.Join(xs, "; ") + "]"
+	}
+	type sch struct {
+		name  string
+		order []cmd.VerifRead
+	}
+	d := func(c string) cmd.VerifRead { return cmd.VerifRead{Comp: c} }
+	ig := func(c string) cmd.VerifRead { return cmd.VerifRead{Comp: c, IgnCancel: true} }
+	scheds := []sch{
+		{"SchP_S_A", []cmd.VerifRead{d("p"), d("s"), d("a"), ig("c")}},
+		{"SchP_S_C", []cmd.VerifRead{d("p"), d("s"), d("c"), ig("a")}},
+		{"SchP_A", []cmd.VerifRead{d("p"), d("a"), ig("s"), ig("c")}},
+		{"SchP_C", []cmd.VerifRead{d("p"), d("c"), ig("s"), ig("a")}},
+		{"SchS", []cmd.VerifRead{d("s"), ig("p"), ig("a"), ig("c")}},
+		{"SchA", []cmd.VerifRead{d("a"), ig("p"), ig("s"), ig("c")}},
+		{"SchC", []cmd.VerifRead{d("c"), ig("p"), ig("s"), ig("a")}},
+	}
+	var fitems []string
+	nf := 60
+	if *tier == "thorough" {
+		nf = 1500
+	}
+	for i := 0; i < nf; i++ {
+		comp := map[string][]string{"p": genErr(), "s": genErr(), "a": genErr(), "c": genErr()}
+		verdict, cleanup := []string(nil), []string(nil)
+		if rng.Intn(3) == 0 {
+			verdict = []string{"audit"}
+		}
+		if rng.Intn(5) == 0 {
+			cleanup = []string{"real"}
+		}
+		for _, sc := range scheds {
+			nonNil, _ := cmd.VerifFunnel(comp, sc.order, verdict, cleanup)
+			fitems = append(fitems, fmt.Sprintf("(%s, %s, %s, %s, %s, %s, %s, %s)", sc.name, coqErr(comp["p"]), coqErr(comp["s"]),
+				coqErr(comp["a"]), coqErr(comp["c"]), coqErr(verdict), coqErr(cleanup), vh.Bool(nonNil)))
+		}
+	}
+	var citems []string
+	nc := 200
+	if *tier == "thorough" {
+		nc = 5000
+	}
+	for i := 0; i < nc; i++ {
+		n := rng.Intn(6)
+		var rs []string
+		var coq []string
+		for j := 0; j < n; j++ {
+			switch rng.Intn(5) {
+			case 0:
+				rs = append(rs, "boom")
+				coq = append(coq, "[KReal]")
+			case 1:
+				rs = append(rs, "<cancel>")
+				coq = append(coq, "[KCancel]")
+			default:
+				rs = append(rs, "")
+				coq = append(coq, "[]")
+			}
+		}
+		text, isCancel := cmd.VerifCollectErrors(rs)
+		citems = append(citems, fmt.Sprintf("([%s], %s, %s)", strings.Join(coq, "; "), vh.Bool(text != ""), vh.Bool(isCancel)))
+	}
+	stats["funnel-cases"] = len(fitems)
+	stats["collect-cases"] = len(citems)
+	vh.WriteFile(*out, "cases.v", "Definition cases : list verdict_case := "+vh.ListNL(items)+".\n"+
+		"Definition funnel_cases : list funnel_case := "+vh.ListNL(fitems)+".\n"+
+		"Definition collect_cases : list collect_case := "+vh.ListNL(citems)+".\n")
 	vh.WriteJSON(*out, "cases.json", cases)
 	var samples []interface{}
 	for _, i := range []int{0, len(cases) / 2} {
